@@ -819,10 +819,11 @@ Qed.
 
 (* ------------------------------------------------------------------ C10_iter_keeps_prefix *)
 
-(* c2 is c except that object o, whose hook in c returns an iterator that yields l and then
-   raises, returns the plain sequence l in c2 *)
+(* c2 is c except that object o, whose hook in c returns an iterator that contributes the items l
+   (the non-None values it yields) and then stops or raises, returns in c2 a plain sequence l2 with
+   the same non-None entries (None entries anywhere in between) *)
 Definition iter_as_seq (c c2 : cfg) (o : nat) (l : list item) : Prop :=
-  unwrap c o = UIter l true /\ unwrap c2 o = USeq (map Some l) /\
+  (exists b, unwrap c o = UIter l b) /\ (exists l2, unwrap c2 o = USeq l2 /\ somes l2 = l) /\
   (forall o', o' <> o -> unwrap c2 o' = unwrap c o') /\
   (forall f, elab c2 f = elab c f) /\ (forall f, prehide c2 f = prehide c f) /\
   uguard c2 = uguard c.
@@ -833,7 +834,7 @@ Proof. induction l; simpl; congruence. Qed.
 Lemma Unw_iter_as_seq c c2 o l : iter_as_seq c c2 o l ->
   forall n seq out es, Unw c n seq out es -> exists es', Unw c2 n seq out es'.
 Proof.
-  intros (U1 & U2 & UO & EL & PH & UG) n seq out es H.
+  intros ([b0 U1] & (l2 & U2 & SL) & UO & EL & PH & UG) n seq out es H.
   induction H; try destruct IHUnw as [es' IH].
   - eexists; constructor.
   - eexists; constructor; eauto.
@@ -850,8 +851,8 @@ Proof.
   - destruct (Nat.eq_dec o0 o) as [->|NE]; [congruence|].
     eexists; eapply U_seq; eauto; try lia. rewrite UO; eauto.
   - destruct (Nat.eq_dec o0 o) as [->|NE].
-    + rewrite U1 in H. inversion H; subst.
-      eexists; eapply U_seq; eauto; try lia. rewrite somes_map_Some. eauto.
+    + rewrite U1 in H. inversion H; subst l0 b.
+      eexists; eapply U_seq; eauto; try lia. rewrite SL. eauto.
     + eexists; eapply U_iter; eauto; try lia. rewrite UO; eauto.
 Qed.
 
@@ -967,7 +968,20 @@ Qed.
 
 Example ex_iter_as_seq : plain ex_cfg2 /\ iter_as_seq ex_cfg ex_cfg2 1 [IPy 2; IPy 3].
 Proof.
-  split; [apply mkcfg_plain|]. repeat split.
+  split; [apply mkcfg_plain|]. split; [exists true; reflexivity|].
+  split; [exists [Some (IPy 2); Some (IPy 3)]; split; reflexivity|]. repeat split.
+  intros o' NE. destruct o' as [|[|o']]; try reflexivity. congruence.
+Qed.
+(* the same iterator against a sequence with None entries in between *)
+Definition ex_cfg3 : cfg :=
+  mkcfg [(0, USeq [Some (IPy 0); None; Some (IObj 1)]); (1, USeq [None; Some (IPy 2); None; Some (IPy 3); None])]
+        [(0, (ESeq [RItem (IPy 1); RNext], true)); (1, (ESeq [RItem (IPy 4); RNext], false));
+         (2, (ESeq [], false))]
+        [] [] [] [] false all_guards 100.
+Example ex_iter_as_seq_none : plain ex_cfg3 /\ iter_as_seq ex_cfg ex_cfg3 1 [IPy 2; IPy 3].
+Proof.
+  split; [apply mkcfg_plain|]. split; [exists true; reflexivity|].
+  split; [exists [None; Some (IPy 2); None; Some (IPy 3); None]; split; reflexivity|]. repeat split.
   intros o' NE. destruct o' as [|[|o']]; try reflexivity. congruence.
 Qed.
 
